@@ -2,8 +2,8 @@
 import os
 from tools.py2lean import gen_c06, gen_c07
 
-LEAN_TARGETS = ["EasyFEAVerif.Props.C07", "EasyFEAVerif.Gen.C07.RulesIndex"]
-PROPS_MODULES = ["EasyFEAVerif.Props.C07"]
+LEAN_TARGETS = ["EasyFEAVerif.Props.C07", "EasyFEAVerif.Gen.C07.RulesIndex", "EasyFEAVerif.Props.C07Signed"]
+PROPS_MODULES = ["EasyFEAVerif.Props.C07", "EasyFEAVerif.Props.C07Signed"]
 TRUSTED_EXTRA = [
     "C07: numpy.polynomial.legendre.leggauss is external: its actual binary64 output on this machine is dumped (exact rationals) and proved about",
     "C07: closed-form reference moments (simplex formula a!b!c!/(a+b+c+d)!) are the specification of 'the exact integral'",
